@@ -305,7 +305,7 @@ def check_litfmt(R, drv, tier):
         nonlocal nviol
         txt = "".join(chr(model.eval(c, model_completion=True).as_long()) for c in text_terms)
         printed = "".join(chr(model.eval(c, model_completion=True).as_long()) for c in out)
-        if txt in seen:
+        if txt in seen or nviol >= 20:       # at most 20 witnesses are replayed and reported; the verdict needs one
             return
         seen.add(txt)
         prog = f"from t\nderive x = {sqlstr.prql_literal(txt)}\n"
@@ -489,7 +489,7 @@ def check_interp(R, drv, tier):
         vals = ["".join(chr(model.eval(c, model_completion=True).as_long()) for c in t) for t in texts]
         printed = "".join(chr(model.eval(c, model_completion=True).as_long()) for c in out)
         key = (shape, tuple(vals))
-        if key in seen:
+        if key in seen or nviol >= 20:       # at most 20 witnesses are replayed and reported; the verdict needs one
             return
         seen.add(key)
 
